@@ -164,6 +164,8 @@ class CFG:
             self._loops.pop()
             self._connect(body_end, head.id, "next")
             infinite = isinstance(st, ast.While) and isinstance(st.test, ast.Constant) and bool(st.test.value)
+            if isinstance(st, ast.For) and isinstance(st.iter, ast.Call) and ast.unparse(st.iter.func) in ("count", "itertools.count", "itertools.cycle", "cycle"):
+                infinite = True   # unbounded iterators never exhaust
             if not infinite:
                 if st.orelse:
                     e = self._block(st.orelse, [head.id], ctx, "done")
